@@ -37,6 +37,16 @@ impl CertAuth {
     pub fn handle(&self) -> &CaHandle { unimplemented!() }
 }
 impl CaHandle { pub fn as_str(&self) -> &str { unimplemented!() } }
+pub struct RepositoryContact(pub u8);
+pub struct DeprecatedRepository(pub u8);
+impl DeprecatedRepository { pub fn into_contact(self) -> RepositoryContact { unimplemented!() } }
+impl CertAuth {
+    pub fn vx_parents(&self) -> Vec<&ParentHandle> { unimplemented!() }
+}
+impl<T> AggregateStore<T> { pub fn drop_aggregate(&self, _h: &CaHandle) -> Result<(), StoreError> { unimplemented!() } }
+pub struct StoreError(pub u8);
+impl From<StoreError> for Error { fn from(_e: StoreError) -> Error { unimplemented!() } }
+impl CaObjectsStore { pub fn remove_ca(&self, _h: &CaHandle) -> KrillResult<()> { unimplemented!() } }
 '''
 
 SPEC = r'''
@@ -61,6 +71,23 @@ pub uninterp spec fn looked_up(h: CaHandle, c: CertAuth) -> bool;
 /// validation, so this look-up is what refuses a child that was removed); the trust anchor keeps no suspension state and is exempt
 pub open spec fn may_record_child(ca: CaHandle, child: ChildHandle) -> bool {
     handle_text(ca) == TA_NAME@ || exists |c: CertAuth| #[trigger] looked_up(ca, c) && ca_has_child(c, child)
+}
+#[verifier::external_type_specification] #[verifier::external_body] pub struct ExRepositoryContact(RepositoryContact);
+#[verifier::external_type_specification] #[verifier::external_body] pub struct ExDeprecatedRepository(DeprecatedRepository);
+#[verifier::external_type_specification] #[verifier::external_body] pub struct ExStoreError(StoreError);
+pub assume_specification [DeprecatedRepository::into_contact] (d: DeprecatedRepository) -> (r: RepositoryContact);
+pub assume_specification [CertAuth::vx_parents] (c: &CertAuth) -> (r: Vec<&ParentHandle>);
+pub assume_specification<T> [AggregateStore::<T>::drop_aggregate] (s: &AggregateStore<T>, h: &CaHandle) -> (r: Result<(), StoreError>);
+pub assume_specification [<Error as From<StoreError>>::from] (e: StoreError) -> (r: Error);
+pub assume_specification [CaObjectsStore::remove_ca] (s: &CaObjectsStore, h: &CaHandle) -> (r: KrillResult<()>);
+/// the status store holds no entry (repository, parents, children) for this CA
+pub uninterp spec fn ca_gone(s: CaStatusStore, ca: CaHandle) -> bool;
+impl CaManager {
+    #[verifier::external_body] pub fn vx_repo_contacts(&self, ca: &CaHandle) -> (r: KrillResult<Vec<RepositoryContact>>) { unimplemented!() }
+}
+impl CaStatusStore {
+    /// what unit c19_store verifies of remove_ca (set-level reading)
+    #[verifier::external_body] pub fn remove_ca(&mut self, ca: &CaHandle) -> (r: KrillResult<()>) ensures r is Ok ==> ca_gone(*final(self), *ca) { unimplemented!() }
 }
 pub assume_specification [publication::Message::list_query] () -> (m: publication::Message);
 pub assume_specification [publication::Message::delta] (d: PublishDelta) -> (m: publication::Message);
@@ -116,7 +143,7 @@ def build():
         U.opaque(t, 'Clone')
     U.opaque('PublishDelta', 'Clone')
     for t in ['ResourceClassName', 'RevocationRequest', 'RevocationResponse', 'CaStatusStore', 'CaObjectsStore', 'TrustAnchorProxy', 'TrustAnchorSigner', 'CertAuth', 'SlowKrillRuntime', 'KrillRuntime', 'KeyIdentifier',
-              'ListReply', 'ErrorReply', 'ResourceClassListResponse', 'IdCertInfoRest', 'Base64', 'Hash', 'Actor']:
+              'ListReply', 'ErrorReply', 'ResourceClassListResponse', 'IdCertInfoRest', 'Base64', 'Hash', 'Actor', 'PublishedFile']:
         U.opaque(t, '')
     U.outside(OUT)
     U.enum('src/commons/error.rs', 'Error', keep=['Custom', 'Multiple'], derive=[])
@@ -169,6 +196,15 @@ def build():
                           && (errors0@.len() > 0 ==> r is Err && parent_shown(final(self).status_store, *ca_handle, *parent) is Failed)'''),
                       ('entitlements_kept', 'parent_entitlements(final(self).status_store, *ca_handle, *parent) == parent_entitlements(old(self).status_store, *ca_handle, *parent)'),
                   ]),
+        # deleting a CA: the best-effort clean-up steps (revocation requests, emptying the repositories) record their outcome in the
+        # status store and thereby (re-)create entries for the CA; the entries are removed AFTER them, as the last thing
+        U.fn(MGR, 'CaManager', 'ca_parent_revoke', external_body=True, mut_self=True),
+        U.fn(MGR, 'CaManager', 'ca_repo_sync', external_body=True, mut_self=True),
+        U.fn(MGR, 'CaManager', 'ca_deprecated_repos', external_body=True),
+        U.fn(MGR, 'CaManager', 'delete_ca', mut_self=True, subst=[
+            ('ca.parents()', 'ca.vx_parents()', 'R14'),
+            ('self.ca_repo_elements(\n            ca_handle\n        )?.into_keys().collect()', 'self.vx_repo_contacts(ca_handle)?', 'R14')],
+            ensures=[('no_status_entry_of_a_deleted_ca_is_left', 'r is Ok ==> ca_gone(final(self).status_store, *ca_handle)')]),
         # the first statement of rfc6492_process_request (lifted verbatim, R17s): whoever gets past it is a child this CA has
         U.stmt_fn(MGR, 'CaManager', 'rfc6492_process_request', 'if ca_handle.as_str() != TA_NAME', 'vx_check_child_first',
                   '(&self, ca_handle: &CaHandle, child_handle: ChildHandle, actor: &Actor, krill: &KrillRuntime) -> (r: KrillResult<()>)',
